@@ -17,7 +17,7 @@ UNIVERSE.register(collections.OrderedDict)
 
 A = ast
 from givc.model import named_spec, TypeSpec, parse_spec   # noqa
-named_spec('AttrDict', TypeSpec('dict', (collections.OrderedDict,), False, parse_spec('str'), exact=True))
+named_spec('AttrDict', TypeSpec('dict', (collections.OrderedDict,), False, parse_spec('str'), exact=True, region='node.attributes'))
 
 schema(A.Type, ctype='str?', gtype_name='str?', origin_symbol='any', target_fundamental='str?',
        target_giname='str?', target_foreign='str?', is_const='bool|int', complete_ctype='str?')
@@ -85,8 +85,8 @@ schema(AP.GtkDocAnnotations, position='Position?')
 schema(AP.GtkDocAnnotatable, position='Position?', annotations='GtkDocAnnotations')
 schema(AP.GtkDocTag, name='str', value='str?', description='str?')
 schema(AP.GtkDocParameter, name='str', description='str?')
-schema(AP.GtkDocCommentBlock, name='str', params='dict[GtkDocParameter]', description='str?',
-       tags='dict[GtkDocTag]')
+schema(AP.GtkDocCommentBlock, name='str', params='ParamDict', description='str?',
+       tags='TagDict')
 
 schema(transformer.Transformer, _namespace='Namespace', _accept_unprefixed='bool', _parsed_includes='dict[Namespace]',
        _tag_ns='dict[Compound]', _passthrough_mode='bool', _cachestore='CacheStore?',
@@ -103,7 +103,9 @@ from givc.model import named_spec, TypeSpec, parse_spec   # noqa
 _opts = parse_spec('list[str]')
 _dopts = TypeSpec('dict', (), False, parse_spec('str?'))
 named_spec('Annotations', TypeSpec('dict', (AP.GtkDocAnnotations,), False, _opts,
-                                   keyed={AP.ANN_ARRAY: _dopts, AP.ANN_ATTRIBUTES: _dopts}))
+                                   keyed={AP.ANN_ARRAY: _dopts, AP.ANN_ATTRIBUTES: _dopts}, region='annotations'))
+named_spec('TagDict', TypeSpec('dict', (collections.OrderedDict,), False, parse_spec('GtkDocTag'), region='block.tags'))
+named_spec('ParamDict', TypeSpec('dict', (collections.OrderedDict,), False, parse_spec('GtkDocParameter'), region='block.params'))
 schema(AP.GtkDocAnnotatable, position='Position?', annotations='Annotations')
 
 
